@@ -163,6 +163,13 @@ def sends(res):
     return r
 
 
+def closes_exchange(f):
+    """fields of an "R" input: an ACK or RST whose code fits its type (RFC 7252 table 1: empty, or a response
+    piggy-backed on an ACK) -- only those acknowledge / reject a message; anything else is to be ignored"""
+    code = int(f[3])
+    return (f[2] in ("ACK", "RST") and code == 0) or (f[2] == "ACK" and 64 <= code < 192)
+
+
 def default_tuning():
     from aiocoap.numbers.constants import TransportTuning
     t = TransportTuning()
@@ -207,7 +214,7 @@ def oracle_c03(res):
             if g2 != 2 * g1:
                 return f"gap-not-doubled: {g1} then {g2}"
         # matching ACK / RST
-        acks = [(t, f) for (t, k, f) in ins if k == "R" and int(f[0]) == remote and f[2] in ("ACK", "RST")
+        acks = [(t, f) for (t, k, f) in ins if k == "R" and int(f[0]) == remote and closes_exchange(f)
                 and int(f[4]) == mid and t > t0]
         last_gap = gaps[-1] if gaps else None
         next_timer = copies[-1]["tick"] + (2 * last_gap if last_gap else None or 0)
@@ -301,7 +308,7 @@ def oracle_c14(res):
         elif s["mtype"] == "NON" and 1 <= s["code"] < 32:
             events.append((s["tick"], 1, "non", s, True))
     for (t, k, f) in ins:
-        if k == "R" and f[2] in ("ACK", "RST"):
+        if k == "R" and closes_exchange(f):
             events.append((t, 0, "ack", (int(f[0]), int(f[4])), None))
         if k == "E":
             events.append((t, 0, "err", int(f[0]), None))
@@ -461,6 +468,17 @@ def oracle_c10(res):
                 return r
         return None
 
+    # first pass: the requests (request code on a CON or NON -- RFC 7252 table 1) that are no duplicates
+    fresh, seen0 = [], {}
+    for (t, k, f) in ins:
+        if k != "R" or (shut and t >= shut[0]):
+            continue
+        remote, mt, code, mid, tok = int(f[0]), f[2], int(f[3]), int(f[4]), f[5]
+        if 1 <= code < 32 and mt in ("CON", "NON"):
+            if (remote, mid) in seen0 and t - seen0[(remote, mid)] < EL:
+                continue
+            seen0[(remote, mid)] = t
+            fresh.append((t, remote, tok, mid))
     seen = {}
     for (t, k, f) in ins:
         if k != "R" or (shut and t >= shut[0]):
@@ -468,8 +486,9 @@ def oracle_c10(res):
         remote, mcl, mt, code, mid, tok = int(f[0]), f[1] == "1", f[2], int(f[3]), int(f[4]), f[5]
         now_out = [s for s in sn if s["tick"] == t and s["remote"] == remote]
         now_dl = [d for d in dl if d["tick"] == t]
-        is_dup = 1 <= code < 32 and (remote, mid) in seen and t - seen[(remote, mid)] < EL
-        if 1 <= code < 32 and not is_dup:
+        dedup = 1 <= code < 32 and mt in ("CON", "NON")
+        is_dup = dedup and (remote, mid) in seen and t - seen[(remote, mid)] < EL
+        if dedup and not is_dup:
             seen[(remote, mid)] = t
         if is_dup:
             continue                       # C04's business
@@ -500,21 +519,24 @@ def oracle_c10(res):
                 if acks:
                     return f"non-acked: NON request mid {mid} was acknowledged"
             else:
-                killed = [tt for (tt, kk, ff) in ins if (kk == "X" and tt <= t + EAD)
-                          or (kk == "R" and tt > t and tt <= t + EAD and int(ff[0]) == remote
-                              and ff[5] == tok and 1 <= int(ff[3]) < 32 and int(ff[4]) != mid)]
+                killed = [tt for (tt, kk, ff) in ins if kk == "X" and tt <= t + EAD]
+                # a later request on the same token from the same endpoint takes this one's place: its
+                # acknowledgement is due then (as an empty ACK), not EMPTY_ACK_DELAY after its arrival
+                sup = [tt for (tt, rem2, tok2, mid2) in fresh if tt > t and rem2 == remote and tok2 == tok]
+                due = min([t + EAD] + sup[:1])
                 if len(acks) != 1 and not killed:
                     return f"ack-count: CON request mid {mid} acknowledged {len(acks)} times"
                 if acks:
                     a = acks[0]
                     if a["code"] == 0:
                         resp_before = [e for e in res["script"]["events"] if e[0] == "P"
-                                       and e[2] == now_dl[0]["srv"] and e[1] < t + EAD]
-                        if a["tick"] != t + EAD and not resp_before:
-                            return f"empty-ack-time: empty ACK for mid {mid} at {a['tick']}, expected {t + EAD}"
+                                       and e[2] == now_dl[0]["srv"] and e[1] < due]
+                        if a["tick"] != due and not resp_before:
+                            return f"empty-ack-time: empty ACK for mid {mid} at {a['tick']}, expected {due}"
                     else:
-                        if a["tick"] > t + EAD:
-                            return f"late-piggyback: piggybacked response after EMPTY_ACK_DELAY"
+                        if a["tick"] > due:
+                            return (f"late-piggyback: response piggybacked on mid {mid} at {a['tick']}, after its "
+                                    f"acknowledgement was due ({due})")
                         if a["token"] != tok:
                             return f"piggyback-token: token {a['token']} != {tok}"
             # responses put on the pipe by the script
@@ -537,7 +559,7 @@ def oracle_c10(res):
                     for o in sn:
                         if o["mtype"] == "CON" and o["remote"] == remote and o["tick"] < tp:
                             acked = [tt for (tt, kk, ff) in ins if kk == "R" and int(ff[0]) == remote
-                                     and ff[2] in ("ACK", "RST") and int(ff[4]) == o["mid"] and o["tick"] < tt <= tp]
+                                     and closes_exchange(ff) and int(ff[4]) == o["mid"] and o["tick"] < tt <= tp]
                             if not acked:
                                 open_con = True
                     if open_con and not sent:
